@@ -105,8 +105,11 @@ func Cookies(cookies []*http.Cookie) event.Option {
 func (s *httpService) Handle(ctx context.Context, conn net.Conn) error {
 	id := xid.New()
 
+	// one buffered reader per connection: a reader per request would drop
+	// whatever it had read ahead (the next pipelined request)
+	br := bufio.NewReader(conn)
+
 	for {
-		br := bufio.NewReader(conn)
 
 		req, err := http.ReadRequest(br)
 		if err == io.EOF {
